@@ -2,6 +2,16 @@ import CJ.Model.Detector
 /-! Helper lemmas for the station → detector channel model (C10). -/
 namespace CJ.Detector
 
+/-- the announcement-relevant guarantees of admission (C07 ⇒ C10): phantom and registrant are 4- or
+16-byte addresses, an IPv4 phantom comes with an IPv4 registrant, the protocol is the transport's
+(TCP or UDP), the port is a `uint16`. -/
+structure Announceable (r : Reg) : Prop where
+  phantom : (ipOf r.phantom).isSome
+  registrant : (ipOf r.registrant).isSome
+  family : (to4 r.phantom).isSome → (to4 r.registrant).isSome
+  proto : r.proto = protoTcp ∨ r.proto = protoUdp
+  port : r.port < 65536
+
 /-! ### `net.IP` classification -/
 
 theorem ipOf_isSome_iff (b : Bytes) : (ipOf b).isSome ↔ (to4 b).isSome ∨ b.length = 16 := by
